@@ -29,6 +29,17 @@ type Case struct {
 // SkippedBuild counts generated tables that Container.Add refused (F11).
 var SkippedBuild int
 
+// FaultsSent counts fault-traffic requests; Hung collects containers that no longer accepted a
+// registration after fault traffic (TakeHung hands them to the check and forgets them).
+var FaultsSent int
+var Hung []string
+
+func TakeHung() []string {
+	h := Hung
+	Hung = nil
+	return h
+}
+
 // Lines are the two protocol lines that replay this case on the driver.
 func (c *Case) Lines() []string { return []string{c.CfgLine, c.ReqLine} }
 
@@ -56,8 +67,23 @@ func Run(seed uint64, nCfg, perCfg int, o Opts) ([]*Case, error) {
 		}
 		cfgLine := sx.K("cfg", sx.N(ci), cfg.Sx()).String()
 		lines = append(lines, cfgLine)
-		for qi := 0; qi < perCfg; qi++ {
+		hung := false
+		for qi := 0; qi < perCfg && !hung; qi++ {
 			req := GenReq(r, o, cfg)
+			if o.Faults && r.Chance(1, 8) {
+				// fault traffic before the request that is judged: the same kind of request, but user code
+				// panics while it is served (the route function after it looked at its parameters, or an
+				// If-condition during route selection); now and then the container must also still accept a
+				// registration afterwards
+				kind := []string{"handler", "cond"}[r.Intn(2)]
+				Fault(cont, GenReq(r, o, cfg), kind)
+				FaultsSent++
+				if r.Chance(1, 6) && !StillUsable(cont) {
+					Hung = append(Hung, fmt.Sprintf("after a request whose %s panicked, Container.Add/Remove did not return within 2 s (router %s); table: %s", map[string]string{"handler": "route function", "cond": "If-condition"}[kind], cfg.Router, cfg.Sx()))
+					hung = true // this container is lost: every later request would wait behind the blocked writer
+					break
+				}
+			}
 			real := Dispatch(cont, req)
 			c := &Case{Cfg: &cfg, CfgLine: cfgLine, Req: req, Real: real, RealS: real.Sx().String()}
 			c.ReqLine = sx.K("route", sx.N(len(cases)), req.Sx(), sx.K("real", real.Sx(), sx.H(real.SelPath), sx.N(real.Invocations))).String()
